@@ -15,7 +15,15 @@ executed again in a fresh interpreter with another backend (serial / fork) and a
 PYTHONHASHSEED; and the reverse order (fork or serial first, spawn second). The second invocation
 must find every task cached, execute nothing, return equal values and the recorded result_meta.
 
-Both are compared with the Lean `HIST` model on the level of which tasks execute / load / are cached.
+(M) ONE LAB, MANY STEPS, REAL WORKERS — histories on one Lab / one storage object: run -> cache hit /
+cached_tasks -> bust_cache re-run in a real fork or spawn worker (sometimes with a task that raises in
+that run only, chosen through the Lab context) -> hit / cached_tasks again … After EVERY step the
+storage directory is snapshotted and a fresh interpreter reads each snapshot: every value and
+result_meta (start, duration) the Lab handed out in that step must equal what is on disk at that
+moment, and the whole history must agree with the plain-map reference (a failed re-execution leaves
+the stored result cached) and with the Lean `HIST` model.
+
+All are compared with the Lean `HIST` model on the level of which tasks execute / load / are cached.
 """
 import json
 import logging
@@ -383,14 +391,134 @@ def script_pattern_model(mo):
     return [first] + segs[1:-1] + [last]
 
 
+
+# =================================================================== (M) one Lab, many steps, real workers
+def gen_mixed(rng, tier):
+    """same-Lab histories: run -> hit / cached_tasks (anything the process may memoise is now populated)
+    -> bust_cache re-run in a real fork (or spawn) WORKER, possibly with tasks failing in that run ->
+    hit / cached_tasks again -> ..."""
+    cases = []
+    n_cases = 24 if tier == 'quick' else 300
+    for i in range(n_cases):
+        n = 5
+        ty = [rng.randrange(3) for _ in range(n)]
+        deps = []
+        for t in range(n):
+            deps.append(sorted(rng.sample(range(t), min(t, rng.choice([0, 1, 1, 2])))) if t else [])
+        req = rng.sample(range(n), rng.choice([1, 2, 2, 3]))
+        worker = 'spawn' if i % 12 == 5 else 'fork'
+        ops, g = [], 0
+
+        def run(bust, backend, fail=()):
+            nonlocal g
+            g += 1
+            return ['R', int(bust), g, list(req), sorted(fail), backend]
+        clo, todo = set(), list(req)
+        while todo:
+            t = todo.pop()
+            if t not in clo:
+                clo.add(t)
+                todo += deps[t]
+        clo = sorted(clo)
+        ops.append(run(False, rng.choice(['serial', 'fork'])))
+        ops.append(rng.choice([['C', [0, 1, 2]], run(False, 'serial')]))
+        ops.append(['C', [0, 1, 2]])
+        for _ in range(2 if tier == 'quick' else 3):
+            fail = rng.sample(clo, 1) if rng.random() < 0.5 else []
+            ops.append(run(True, worker if rng.random() < 0.85 else 'serial', fail))
+            ops.append(run(False, rng.choice(['serial', 'serial', 'fork'])))
+            ops.append(['C', [0, 1, 2]])
+            if rng.random() < 0.3:
+                ops.append(['U', rng.sample(clo, 1)])
+        cases.append(dict(ty=ty, ca=['p', 'o', 'p'], deps=deps, fl=[0] * n, ops=ops, storage='local', backend='serial'))
+    return cases
+
+
+def mix_first(spec_path, out_path):
+    from props import c08
+    spec = json.load(open(spec_path))
+    out = []
+    for case in spec['seqs']:
+        try:
+            snap = tempfile.mkdtemp(prefix='mx-', dir=spec['root'])
+            real = c08.run_real(case, snap_root=snap)
+            out.append(dict(case=case, snap=snap, real=[c08.show(o) for o in real],
+                            seen=[o['seen'] for o in real], loaded=[o.get('loaded', {}) for o in real],
+                            ref=[c08.show(o) for o in c08.reference(case)]))
+        except BaseException:
+            import traceback
+            out.append(dict(case=case, infra=traceback.format_exc()[-800:]))
+    json.dump(out, open(out_path, 'w'), default=str)
+
+
+def mix_second(spec_path, out_path):
+    """fresh interpreter: what is on disk after every step"""
+    import labtech
+    import histtasks as H
+    from labtech.storage import LocalStorage
+    from props import c08
+    labtech.logger.setLevel(logging.CRITICAL)
+    spec = json.load(open(spec_path))
+    out = []
+    for rec in spec['records']:
+        if rec.get('infra'):
+            out.append(rec)
+            continue
+        try:
+            H.configure(rec['case']['ca'])
+            fresh = []
+            for step in range(len(rec['case']['ops'])):
+                st = LocalStorage(os.path.join(rec['snap'], f'step{step}'))
+                lab = labtech.Lab(storage=st, runner_backend='serial')
+                disk = {}
+                for x in lab.cached_tasks(H.TYPES):
+                    try:
+                        tr = x._lt.cache.load_result_with_meta(st, x)
+                        disk[x.k] = dict(listed=c08.iso_meta(x.result_meta), meta=c08.iso_meta(tr.meta), value=tr.value)
+                    except BaseException as e:
+                        disk[x.k] = dict(listed=c08.iso_meta(x.result_meta), meta='raised ' + type(e).__name__, value=None)
+                fresh.append(disk)
+            out.append(dict(rec, fresh=fresh))
+        except BaseException:
+            import traceback
+            out.append(dict(case=rec['case'], infra=traceback.format_exc()[-800:]))
+    json.dump(out, open(out_path, 'w'), default=str)
+
+
+def mix_monitor(rec):
+    out = []
+    ops = rec['case']['ops']
+    for i, (real, ref) in enumerate(zip(rec['real'], rec['ref'])):
+        op = ops[i]
+        if real != ref:
+            prev_ok = f'{op}'
+            kind = 'run_tasks' if op[0] == 'R' else {'C': 'cached_tasks', 'U': 'uncache_tasks', 'I': 'is_cached'}[op[0]]
+            out.append(f"one Lab, step {i} {op}: {kind} gave '{real}' but the results stored by the earlier successful executions dictate '{ref}' "
+                       "(a stored result must stay cached and be returned, with its recorded start/duration, until it is replaced by a successful execution)")
+            break
+        disk = rec['fresh'][i]
+        for k, m in rec['seen'][i].items():
+            d = disk.get(int(k)) if int(k) in disk else disk.get(str(k))
+            if d is None:
+                continue    # cache=None type / failed execution: nothing on disk to compare with
+            if d['meta'] != m or d['listed'] != m:
+                out.append(f"one Lab, step {i} {op}: task {k} was handed out with result_meta {m}, but a fresh interpreter reads {d['meta']} (cached_tasks: {d['listed']}) from the entry on disk at that moment")
+                return out
+        for k, v in rec['loaded'][i].items():
+            d = disk.get(int(k)) if int(k) in disk else disk.get(str(k))
+            if d is not None and d['value'] != v[0]:
+                out.append(f"one Lab, step {i} {op}: load of task {k} returned {v[0]} but the entry on disk holds {d['value']}")
+                return out
+    return out
+
 # =================================================================== entry points
-def run_conf(seqs, workers, timeout):
+def run_conf(seqs, workers, timeout, flags=('--conf1', '--conf2')):
     root = tempfile.mkdtemp(prefix='verif-c06c-')
     try:
         chunks = [ch for ch in (seqs[i::workers] for i in range(workers)) if ch]
         outs = []
         errors = []
-        for phase, flag in ((1, '--conf1'), (2, '--conf2')):
+        for phase, flag in ((1, flags[0]), (2, flags[1])):
             procs, files = [], []
             for i, ch in enumerate(chunks):
                 sp, op = os.path.join(root, f'spec{phase}_{i}.json'), os.path.join(root, f'out{phase}_{i}.json')
@@ -424,12 +552,26 @@ def run_extra(rng, tier, only=None):
     box = {}
     th = threading.Thread(target=lambda: box.update(zip(('recs', 'errors'), run_scripts(scen))) if scen else box.update(recs=[], errors=[]))
     th.start()
-    crecs, e = run_conf(seqs, 6, 50 if tier == 'quick' else 600) if seqs else ([], [])
+    crecs, e = run_conf(seqs, 4, 50 if tier == 'quick' else 600) if seqs else ([], [])
+    errors += e
+    mixed = gen_mixed(rng, tier) if only is None else ([only['case']] if only.get('kind') == 'one-lab' else [])
+    mrecs, e = run_conf(mixed, 8, 55 if tier == 'quick' else 800, flags=('--mix1', '--mix2')) if mixed else ([], [])
     errors += e
     th.join()
     srecs = box.get('recs', [])
     errors += box.get('errors', [])
-    errors += [r['infra'] for r in crecs + srecs if r.get('infra')]
+    errors += [r['infra'] for r in crecs + srecs + mrecs if r.get('infra')]
+    mrecs = [r for r in mrecs if not r.get('infra')]
+    if mrecs:
+        from props import c08
+        mouts = driver.run_lines([c08.encode(r['case']) for r in mrecs])
+        for r, mo in zip(mrecs, mouts):
+            model = mo.split(' | ')
+            if model != r['real']:
+                i = next((j for j, (a, b) in enumerate(zip(r['real'], model)) if a != b), 0)
+                disagreements.append(dict(family='one-lab', case=r['case'], step=i, real=r['real'][i:i + 1], model=model[i:i + 1]))
+            for what in mix_monitor(r):
+                violations.append(dict(what=what, replay=dict(kind='one-lab', case=r['case'], real=r['real'], reference=r['ref'])))
     crecs = [r for r in crecs if not r.get('infra')]
     srecs = [r for r in srecs if not r.get('infra')]
     lines = ([conf_model_line()] if crecs else []) + ([SCRIPT_MODEL] if srecs else [])
@@ -453,7 +595,12 @@ def run_extra(rng, tier, only=None):
                 violations.append(dict(what=what, replay=dict(kind='script', scenario=r['scenario'],
                                                               run1=r.get('run1'), run2=r.get('run2'),
                                                               exec1=r.get('exec1'), exec2=r.get('exec2'))))
-    dist = dict(confusable_sequences=len(crecs),
+    dist = dict(one_lab_histories=len(mrecs),
+                one_lab_steps=sum(len(r['case']['ops']) for r in mrecs),
+                one_lab_worker_runs={b: sum(1 for r in mrecs for op in r['case']['ops'] if op[0] == 'R' and op[5] == b) for b in ('serial', 'fork', 'spawn')},
+                one_lab_bust_runs_with_failing_task=sum(1 for r in mrecs for op in r['case']['ops'] if op[0] == 'R' and op[1] and op[4]),
+                one_lab_snapshots_read_by_fresh_interpreter=sum(len(r.get('fresh', [])) for r in mrecs),
+                confusable_sequences=len(crecs),
                 confusable_by_shape={s: sum(1 for r in crecs if r['seq']['shape'] == s) for s in ('top', 'tuple', 'dict', 'deep', 'task')},
                 confusable_distinct_keys=sorted({r['distinct_keys'] for r in crecs}),
                 script_scenarios=['->'.join(r['scenario']) for r in srecs],
@@ -461,8 +608,8 @@ def run_extra(rng, tier, only=None):
                 extra_wall_s=round(time.time() - t0, 1))
     samples = [dict(seq=r['seq'], steps=[(s['v'], s['got']) for s in r['steps']]) for r in crecs[:1]] + \
               [dict(scenario=r['scenario'], exec1=r['exec1'], exec2=r['exec2']) for r in srecs[:1]]
-    return dict(violations=violations, disagreements=disagreements, evaluations=len(crecs) + len(srecs),
-                nontrivial=len(crecs) + len(srecs), dist=dist, errors=errors, samples=samples)
+    return dict(violations=violations, disagreements=disagreements, evaluations=len(crecs) + len(srecs) + len(mrecs),
+                nontrivial=len(crecs) + len(srecs) + len(mrecs), dist=dist, errors=errors, samples=samples)
 
 
 if __name__ == '__main__':
@@ -470,3 +617,7 @@ if __name__ == '__main__':
         conf_first(sys.argv[2], sys.argv[3])
     elif len(sys.argv) == 4 and sys.argv[1] == '--conf2':
         conf_second(sys.argv[2], sys.argv[3])
+    elif len(sys.argv) == 4 and sys.argv[1] == '--mix1':
+        mix_first(sys.argv[2], sys.argv[3])
+    elif len(sys.argv) == 4 and sys.argv[1] == '--mix2':
+        mix_second(sys.argv[2], sys.argv[3])
